@@ -988,7 +988,8 @@ class RZILTransformer(Transformer):
             self.add_op(
                 Sequence(
                     f"seq",
-                    self.take_pending_effects(flatten_list(items[4])) + [items[3]],
+                    self.take_pending_effects(flatten_list(items[4]))
+                    + flatten_list([items[3]]),
                 )
             ),
             HybridSeqOrder.SEQ_THEN_HYB,
